@@ -29,6 +29,18 @@ Y9  labels handed out / rules recorded while iterating over a set (hash order).
 Y11 the result of a method that only builds and returns a new object is thrown away.
 Y12 in a chain of isinstance tests that each leave (return / raise / continue), a class is
     tested after one of its base classes: its branch is never reached.
+Y13 a lambda / nested function made inside a loop reads the loop variable and outlives the
+    iteration (it sees the last value when it is finally called).
+Y14 `is` / `is not` between values (an operand annotated int / str / float / Tuple, or a
+    literal of those types): identity of equal values is an accident of the interpreter.
+Y15 one mutable object repeated: `[[]] * n`, `[{}] * n`, `dict.fromkeys(keys, [])`.
+Y16 `__exit__` returns nothing (or False): a true result swallows the exception in flight.
+Y17 the backing attribute `x._name` of a property `name` is read from outside the class that
+    owns the property: a subclass that overrides the property is bypassed.
+Y19 `xs[-e:]` / `xs[:-e]` with a computed e: for e == 0 the first is the whole sequence and
+    the second is empty.
+Y20 a call declared `-> Tuple[...]` tested for truth, or returned from a function declared
+    `-> bool`: a non-empty tuple is always true.
 Y10 a copy / pickle hook (`__getstate__`, `__setstate__`, `__reduce__`, `__copy__`, `__deepcopy__`)
     that does anything but carry the whole instance dictionary over.
 """
@@ -109,6 +121,9 @@ def run(ctx, modules: Tuple[str, ...]) -> None:
                 tv = (st.target.id, st.value)
             if tv and _mutable_value(tv[1]):
                 module_containers.setdefault(mi.short, set()).add(tv[0])
+    by_name_all: Dict[str, List[FuncInfo]] = {}
+    for fi_ in P.all_functions():
+        by_name_all.setdefault(fi_.name, []).append(fi_)
     # functions that hand back a one-shot iterator without being generator functions
     one_shot_returners: Dict[str, FuncInfo] = {}
     for fi in P.all_functions():
@@ -117,6 +132,16 @@ def run(ctx, modules: Tuple[str, ...]) -> None:
         rets = [r for r in C.returns_of(fi.node) if r.value is not None]
         if rets and any(isinstance(r.value, ast.GeneratorExp) or (isinstance(r.value, ast.Call) and norm(r.value.func).split(".")[-1] in ("map", "filter", "zip")) for r in rets):
             one_shot_returners[fi.name] = fi
+    tuple_returners = {nm: fs for nm, fs in by_name_all.items() if not nm.startswith("__")
+                       and all(x.node.returns is not None and norm(x.node.returns).startswith(("Tuple[", "tuple[")) for x in fs)}
+    # properties `name` whose getter hands back `self._name`
+    backing_props: Dict[str, List[ClassInfo]] = {}
+    for k_ in P.classes.values():
+        for m_ in k_.methods.values():
+            if "property" in m_.decorators:
+                rs_ = [r for r in C.returns_of(m_.node) if r.value is not None]
+                if rs_ and all(is_self_attr(r.value, "_" + m_.name) for r in rs_):
+                    backing_props.setdefault("_" + m_.name, []).append(k_)
     # names that resolve only to functions declared `-> Optional[int]`
     by_name: Dict[str, List[FuncInfo]] = {}
     for fi in P.all_functions():
@@ -178,6 +203,11 @@ def run(ctx, modules: Tuple[str, ...]) -> None:
                 elems = [n.value]
             elif isinstance(n, (ast.ListComp, ast.SetComp)):
                 elems = [n.elt]
+            elif isinstance(n, ast.GeneratorExp) and isinstance(parent(n), ast.Call) and isinstance(parent(n).func, ast.Name) \
+                    and parent(n).func.id in ("tuple", "list", "frozenset", "set", "deque") and parent(n).args and parent(n).args[0] is n:
+                elems = [n.elt]         # tuple(<one-shot> for ...): every element of the tuple is an iterator
+            # either arm of a conditional element
+            elems = [a for e in elems for a in ((e.body, e.orelse) if isinstance(e, ast.IfExp) else (e,))]
             for e in elems:
                 if _is_one_shot_expr(e) and not isinstance(parent(n), ast.Starred):
                     # a generator handed straight on as an argument tuple of a call that consumes it is not "kept"
@@ -234,6 +264,15 @@ def run(ctx, modules: Tuple[str, ...]) -> None:
             if written or kept:
                 ctx.violation("Y4", dflt, f"{fi.qualname}: the default `{p}={norm(dflt)}` is one object made when the function is defined; it is "
                               f"{'kept in self' if kept else 'written to'}, so every call (every instance) that relies on the default shares it")
+        # ---------------------------------------------------------------- Y20 (a tuple returned as a bool)
+        if f.returns is not None and norm(f.returns) == "bool":
+            for r in C.returns_of(f):
+                rv = D.expanded(f, r.value) if isinstance(r.value, ast.Name) else r.value
+                if isinstance(rv, ast.Call):
+                    tnm = rv.func.attr if isinstance(rv.func, ast.Attribute) else (rv.func.id if isinstance(rv.func, ast.Name) else None)
+                    if tnm in tuple_returners:
+                        ctx.violation("Y20", r, f"{fi.qualname} is declared `-> bool` and returns `{norm(r.value)[:60]}`, a `{norm(tuple_returners[tnm][0].node.returns)[:40]}`: "
+                                      "callers test it for truth, and a non-empty tuple is always true")
         # ---------------------------------------------------------------- Y8 (Optional results)
         if f.returns is not None and norm(f.returns).startswith("Optional[") and not norm(f.returns).startswith("Optional[bool"):
             for r in C.returns_of(f):
@@ -241,13 +280,57 @@ def run(ctx, modules: Tuple[str, ...]) -> None:
                     ctx.violation("Y8", r, f"{fi.qualname} is declared to return {norm(f.returns)[:50]} and returns `{norm(r.value)[:60]}`: when the left operand is false that is "
                                   "`False` (or another falsy value), not None, and callers that test `is None` take it for a result")
         # a call declared `-> Optional[int]` is tested with `is None`, never for truth: 0 is a label / an index like any other
+        def _attr_is_int(k0: ClassInfo, attr: str) -> bool:
+            for k_ in P.mro(k0):
+                for st_ in P.attr_assignments(k_).get(attr, []):
+                    a_ = getattr(st_, "annotation", None)
+                    v_ = getattr(st_, "value", None)
+                    if a_ is not None and norm(a_) == "int":
+                        return True
+                    if isinstance(v_, ast.Name):
+                        for m_ in k_.methods.values():
+                            if any(st_ is x for x in walk_local(m_.node)):
+                                for pa in m_.node.args.posonlyargs + m_.node.args.args + m_.node.args.kwonlyargs:
+                                    if pa.arg == v_.id and pa.annotation is not None and norm(pa.annotation) == "int":
+                                        return True
+            return False
+
         def _opt_int_call(e: ast.AST) -> Optional[str]:
-            e = D.expanded(f, e) if isinstance(e, ast.Name) else e
+            if isinstance(e, ast.Name):
+                rv_ = D.reaching_value(f, e, e.id) if parent(e) is not None else None
+                e = rv_[1] if rv_ is not None and rv_[1] is not None else D.expanded(f, e)
             if not isinstance(e, ast.Call):
                 return None
             nm = e.func.attr if isinstance(e.func, ast.Attribute) else (e.func.id if isinstance(e.func, ast.Name) else None)
             tgts = opt_int_returners.get(nm or "")
-            return nm if tgts else None
+            if tgts:
+                return nm
+            # d.pop("k", None) / d.get("k") of a key that the same class writes from an int attribute (to_jsonable / from_dict)
+            if nm in ("pop", "get") and e.args and isinstance(e.args[0], ast.Constant) and isinstance(e.args[0].value, str) and fi.cls is not None \
+                    and (len(e.args) == 1 and nm == "get" or (len(e.args) == 2 and isinstance(e.args[1], ast.Constant) and e.args[1].value is None)):
+                key_ = e.args[0].value
+                for k_ in P.mro(fi.cls):
+                    for m_ in k_.methods.values():
+                        for w_ in walk_local(m_.node):
+                            if isinstance(w_, ast.Assign) and len(w_.targets) == 1 and isinstance(w_.targets[0], ast.Subscript) and isinstance(w_.targets[0].slice, ast.Constant) \
+                                    and w_.targets[0].slice.value == key_ and is_self_attr(w_.value):
+                                if _attr_is_int(k_, w_.value.attr):
+                                    return f"{norm(e.func)}('{key_}')"
+            if nm == "get" and len(e.args) == 1 and isinstance(e.func, ast.Attribute) and is_self_attr(e.func.value) and fi.cls is not None:
+                for k_ in P.mro(fi.cls):
+                    for st_ in P.attr_assignments(k_).get(e.func.value.attr, []):
+                        a_ = getattr(st_, "annotation", None)
+                        v_ = getattr(st_, "value", None)
+                        if a_ is None and isinstance(v_, ast.Name):
+                            # self.table = table, with the parameter annotated
+                            for m_ in k_.methods.values():
+                                if any(st_ is x for x in walk_local(m_.node)):
+                                    for pa in m_.node.args.posonlyargs + m_.node.args.args + m_.node.args.kwonlyargs:
+                                        if pa.arg == v_.id and pa.annotation is not None:
+                                            a_ = pa.annotation
+                        if a_ is not None and norm(a_).replace(" ", "").endswith(",int]"):
+                            return f"self.{e.func.value.attr}.get"
+            return None
         for n in walk_local(f):
             tested: List[ast.AST] = []
             if isinstance(n, ast.BoolOp):
@@ -258,11 +341,121 @@ def run(ctx, modules: Tuple[str, ...]) -> None:
                 tested = [n.test]
             elif isinstance(n, ast.UnaryOp) and isinstance(n.op, ast.Not):
                 tested = [n.operand]
+            elif isinstance(n, ast.Call) and isinstance(n.func, ast.Name) and n.func.id == "bool" and len(n.args) == 1:
+                tested = [n.args[0]]
             for t in tested:
+                tc = D.expanded(f, t) if isinstance(t, ast.Name) else t
+                if isinstance(tc, ast.Call):
+                    tnm = tc.func.attr if isinstance(tc.func, ast.Attribute) else (tc.func.id if isinstance(tc.func, ast.Name) else None)
+                    if tnm in tuple_returners:
+                        ctx.violation("Y20", t, f"{fi.qualname} tests `{norm(t)[:60]}` for truth; `{tnm}` is declared `-> {norm(tuple_returners[tnm][0].node.returns)[:40]}`, and a "
+                                      "non-empty tuple is true whatever it holds: the answer inside it is never looked at")
                 nm = _opt_int_call(t)
                 if nm:
-                    ctx.violation("Y8", t, f"{fi.qualname} tests `{norm(t)[:60]}` for truth; `{nm}` is declared `-> Optional[int]`, and the label / index 0 is as false as None: "
+                    ctx.violation("Y8", t, f"{fi.qualname} tests `{norm(t)[:60]}` for truth; `{nm}` gives an Optional[int], and the label / index 0 is as false as None: "
                                   "for that one value the answer is taken to be missing")
+        # ---------------------------------------------------------------- Y13 (late binding)
+        for lp_ in walk_local(f):
+            if not isinstance(lp_, (ast.For, ast.While)):
+                continue
+            tv = {x.id for x in ast.walk(lp_.target) if isinstance(x, ast.Name)} if isinstance(lp_, ast.For) else set()
+            # names re-bound in every round of the loop
+            for st_ in lp_.body:
+                for x in ast.walk(st_):
+                    if isinstance(x, ast.Name) and isinstance(x.ctx, ast.Store):
+                        tv.add(x.id)
+            for b_ in lp_.body:
+                for l_ in ast.walk(b_):
+                    if not isinstance(l_, (ast.Lambda, ast.FunctionDef)):
+                        continue
+                    la = l_.args
+                    lparams = {a.arg for a in la.args + la.kwonlyargs + la.posonlyargs} | ({la.vararg.arg} if la.vararg else set()) | ({la.kwarg.arg} if la.kwarg else set())
+                    body_nodes = list(ast.walk(l_.body)) if isinstance(l_, ast.Lambda) else [x for s_ in l_.body for x in ast.walk(s_)]
+                    own = {x.id for x in body_nodes if isinstance(x, ast.Name) and isinstance(x.ctx, ast.Store)}
+                    free = {x.id for x in body_nodes if isinstance(x, ast.Name) and isinstance(x.ctx, ast.Load)} - lparams - own
+                    late = sorted(free & tv)
+                    if not late:
+                        continue
+                    par_ = getattr(l_, "_parent", None)
+                    # used on the spot: called directly, or handed as key= / first argument to a consumer that runs it before the call returns
+                    immediate = (isinstance(par_, ast.Call) and par_.func is l_) or \
+                        (isinstance(par_, ast.keyword) and par_.arg == "key") or \
+                        (isinstance(par_, ast.Call) and isinstance(par_.func, ast.Name) and par_.func.id in ("sorted", "min", "max", "filter", "map", "any", "all", "sum", "next")
+                         and isinstance(getattr(par_, "_parent", None), (ast.Call, ast.For, ast.Assign, ast.Return, ast.Expr, ast.comprehension, ast.If, ast.keyword, ast.Starred))
+                         and par_.func.id not in ("map", "filter"))
+                    if isinstance(l_, ast.FunctionDef):
+                        # a helper defined in the loop and only called inside the same round
+                        uses = [x for s_ in lp_.body for x in ast.walk(s_) if isinstance(x, ast.Name) and x.id == l_.name and isinstance(x.ctx, ast.Load)]
+                        immediate = bool(uses) and all(isinstance(getattr(x, "_parent", None), ast.Call) and x._parent.func is x for x in uses)
+                    if immediate:
+                        continue
+                    ctx.violation("Y13", l_, f"{fi.qualname}: `{norm(l_)[:60]}` is made inside a loop and reads `{late[0]}`, which the loop re-binds: the function looks the name up "
+                                  "when it is *called*, so every one of them kept for later sees the value of the last round")
+        # ---------------------------------------------------------------- Y14 (identity of values)
+        ann: Dict[str, str] = {}
+        for a_ in f.args.posonlyargs + f.args.args + f.args.kwonlyargs:
+            if a_.annotation is not None:
+                ann[a_.arg] = norm(a_.annotation)
+        for st_ in walk_local(f):
+            if isinstance(st_, ast.AnnAssign) and isinstance(st_.target, ast.Name):
+                ann[st_.target.id] = norm(st_.annotation)
+
+        def _valueish(e: ast.AST) -> bool:
+            if isinstance(e, ast.Constant):
+                return isinstance(e.value, (int, str, float, bytes)) and not isinstance(e.value, bool)
+            if isinstance(e, ast.Tuple):
+                return True
+            if isinstance(e, ast.Name) and e.id in ann:
+                t_ = ann[e.id]
+                return t_ in ("int", "str", "float") or t_.startswith(("Tuple[", "tuple[", "FrozenSet[", "frozenset["))
+            return False
+        for n in walk_local(f):
+            if isinstance(n, ast.Compare) and len(n.ops) == 1 and isinstance(n.ops[0], (ast.Is, ast.IsNot)):
+                a0, b0 = n.left, n.comparators[0]
+                if any(isinstance(x, ast.Constant) and (x.value is None or isinstance(x.value, bool) or x.value is Ellipsis) for x in (a0, b0)):
+                    continue
+                if _valueish(a0) or _valueish(b0):
+                    ctx.violation("Y14", n, f"{fi.qualname} compares values by identity (`{norm(n)[:60]}`): two equal ints / strings / tuples are the same object only by accident "
+                                  "(small-int and literal caching), so the test fails for labels above 256 or values that were computed rather than copied")
+        # ---------------------------------------------------------------- Y15 (one object repeated)
+        for n in walk_local(f):
+            if isinstance(n, ast.BinOp) and isinstance(n.op, ast.Mult):
+                for side in (n.left, n.right):
+                    if isinstance(side, (ast.List, ast.Tuple)) and any(_mutable_value(e) for e in side.elts):
+                        ctx.violation("Y15", n, f"{fi.qualname}: `{norm(n)[:60]}` repeats *one* mutable object: a write through one position shows in all of them")
+            if isinstance(n, ast.Call) and isinstance(n.func, ast.Attribute) and n.func.attr == "fromkeys" and len(n.args) == 2 and _mutable_value(n.args[1]):
+                ctx.violation("Y15", n, f"{fi.qualname}: `{norm(n)[:60]}` gives every key the same mutable object")
+        # ---------------------------------------------------------------- Y16 (__exit__ result)
+        if fi.name == "__exit__":
+            for r in C.returns_of(f):
+                if r.value is not None and not (isinstance(r.value, ast.Constant) and (r.value.value is None or r.value.value is False)):
+                    ctx.violation("Y16", r, f"{fi.qualname} returns `{norm(r.value)[:40]}`: a true result of __exit__ tells the interpreter to swallow the exception that is being "
+                                  "raised through the `with` block, so an error the caller relies on (a refusal) vanishes and the block just ends")
+        # ---------------------------------------------------------------- Y17 (backing attribute read from outside)
+        for n in walk_local(f):
+            if isinstance(n, ast.Attribute) and isinstance(n.ctx, ast.Load) and n.attr.startswith("_") and not n.attr.startswith("__") \
+                    and not (isinstance(n.value, ast.Name) and n.value.id in ("self", "cls")):
+                owners = backing_props.get(n.attr, [])
+                if not owners:
+                    continue
+                mine = {k.name for k in P.mro(fi.cls)} | {k.name for k in P.subclasses(fi.cls, strict=True)} if fi.cls is not None else set()
+                outside = [o for o in owners if o.name not in mine]
+                overridden = [o for o in outside if any(n.attr[1:] in k.methods for k in P.subclasses(o, strict=True))] or outside
+                if outside and len(outside) == len(owners):
+                    ctx.violation("Y17", n, f"{fi.qualname} reads `{norm(n)[:50]}`, the attribute behind the property `{n.attr[1:]}` of {overridden[0].name}, from outside that class: "
+                                  f"a strategy / rule that overrides `{n.attr[1:]}` (it is a property so that it can be) is asked for the stored default instead")
+        # ---------------------------------------------------------------- Y19 (negated computed slice bound)
+        for n in walk_local(f):
+            if isinstance(n, ast.Subscript) and isinstance(n.slice, ast.Slice):
+                for b_, which in ((n.slice.lower, "lower"), (n.slice.upper, "upper")):
+                    if isinstance(b_, ast.UnaryOp) and isinstance(b_.op, ast.USub) and not isinstance(b_.operand, ast.Constant):
+                        e_txt = norm(b_.operand)
+                        gs_ = [(norm(t), p_) for t, p_ in C.flatten_guards(C.guards(f, n))]
+                        positive = any((p_ and t in (e_txt, f"{e_txt} > 0", f"{e_txt} >= 1", f"0 < {e_txt}", f"{e_txt} != 0")) or ((not p_) and t in (f"not {e_txt}", f"{e_txt} == 0", f"{e_txt} <= 0"))
+                                       for t, p_ in gs_)
+                        if not positive:
+                            what = "the whole sequence" if which == "lower" else "empty"
+                            ctx.violation("Y19", n, f"{fi.qualname}: `{norm(n)[:50]}` with `{e_txt}` == 0 is {what} (-0 is 0), not the last / all but the last 0 elements")
         # ---------------------------------------------------------------- Y12 (isinstance order)
         def _isinst(t: ast.AST) -> Optional[Tuple[str, List[str]]]:
             if isinstance(t, ast.Call) and isinstance(t.func, ast.Name) and t.func.id == "isinstance" and len(t.args) == 2:
@@ -501,6 +694,13 @@ def run(ctx, modules: Tuple[str, ...]) -> None:
                         if isinstance(c, ast.Call) and isinstance(c.func, ast.Attribute) and c.func.attr in MUTATORS and isinstance(c.func.value, ast.Attribute) \
                                 and c.func.value.attr == tgt and isinstance(c.func.value.value, ast.Name) and c.func.value.value.id in ("self", "cls", cls.name):
                             writes.append(c)
+                        elif isinstance(c, ast.Call) and isinstance(c.func, ast.Attribute) and c.func.attr in MUTATORS and isinstance(c.func.value, ast.Subscript):
+                            # self.table[k].add(x): the inner container of a shared table (and, for a defaultdict, the entry itself)
+                            b = c.func.value
+                            while isinstance(b, ast.Subscript):
+                                b = b.value
+                            if isinstance(b, ast.Attribute) and b.attr == tgt and isinstance(b.value, ast.Name) and b.value.id in ("self", "cls", cls.name):
+                                writes.append(c)
                         elif isinstance(c, ast.Subscript) and isinstance(c.ctx, (ast.Store, ast.Del)) and isinstance(c.value, ast.Attribute) and c.value.attr == tgt \
                                 and isinstance(c.value.value, ast.Name) and c.value.value.id in ("self", "cls", cls.name):
                             writes.append(c)
